@@ -133,10 +133,10 @@ where
         },
         ViewOp::OptIntoIter => {
             let o = arena.alloc(v.opt());
-            <Option<T::Inner>>::wrap(S::Fw(o.into_iter()))
+            <Option<T::Inner>>::wrap(S::fw(o.into_iter()))
         },
-        ViewOp::VPart { k, sort, rev } => T::wrap(S::Fw(v.vpartition(*k, *sort, *rev))),
-        ViewOp::VArgPart { k, sort, rev } => Stream::I32(S::Fw(v.varg_partition(*k, *sort, *rev))),
+        ViewOp::VPart { k, sort, rev } => T::wrap(S::fw(v.vpartition(*k, *sort, *rev))),
+        ViewOp::VArgPart { k, sort, rev } => Stream::I32(S::fw(v.varg_partition(*k, *sort, *rev))),
         ViewOp::RollIter { w } => Stream::I32(S::fw(v.rolling_custom_iter(*w, roll))),
         _ => return bad(format!("view op {} not available for this element type", op.kind())),
     })
@@ -151,8 +151,8 @@ where
 {
     Ok(match op {
         ViewOp::IterCast => Stream::F64(S::de(v.iter_cast::<f64>())),
-        ViewOp::VDiff { n, fill } => T::wrap(S::Fw(v.vdiff(*n, fill.as_ref().map(T::from_val)))),
-        ViewOp::VPct { n } => Stream::F64(S::Fw(v.vpct_change(*n))),
+        ViewOp::VDiff { n, fill } => T::wrap(S::fw(v.vdiff(*n, fill.as_ref().map(T::from_val)))),
+        ViewOp::VPct { n } => Stream::F64(S::fw(v.vpct_change(*n))),
         ViewOp::Winsor { method, p } => {
             let m = match method {
                 0 => WinsorizeMethod::Quantile,
@@ -160,7 +160,7 @@ where
                 _ => WinsorizeMethod::Sigma,
             };
             match v.winsorize(m, *p) {
-                Ok(it) => Stream::F64(S::Fw(it)),
+                Ok(it) => Stream::F64(S::fw(it)),
                 // documented Err (q outside [0, 1]): an empty stream stands in for "no stream"
                 Err(e) => return Err(format!("DOCUMENTED-ERR: {e}")),
             }
@@ -462,15 +462,15 @@ where
 {
     Ok(match st {
         Stage::VAbs => S::fw(s.into_fw().vabs()),
-        Stage::Shift { n, v } => S::Fw(s.into_fw().shift(*n, T::from_val(v))),
-        Stage::VShift { n, fill } => S::Fw(s.into_fw().vshift(*n, fill.as_ref().map(T::from_val))),
+        Stage::Shift { n, v } => S::fw(s.into_fw().shift(*n, T::from_val(v))),
+        Stage::VShift { n, fill } => S::fw(s.into_fw().vshift(*n, fill.as_ref().map(T::from_val))),
         Stage::FFill { fill } => S::fw(s.into_fw().ffill(fill.as_ref().map(T::from_val))),
         Stage::BFill { fill } => match s {
             S::De(d) => S::fw(d.bfill(fill.as_ref().map(T::from_val))),
             _ => return bad("bfill needs a double-ended stream"),
         },
         Stage::Fill { v } => S::fw(s.into_fw().fill(T::from_val(v))),
-        Stage::VClip { lo, hi } => S::Fw(s.into_fw().vclip(T::from_val(lo), T::from_val(hi))),
+        Stage::VClip { lo, hi } => S::fw(s.into_fw().vclip(T::from_val(lo), T::from_val(hi))),
         Stage::Rev => match s {
             S::De(d) => S::de(d.rev()),
             _ => return bad("rev needs a double-ended stream"),
@@ -502,7 +502,7 @@ macro_rules! stage_fn {
                     let bins: &'a Vec<$t> = arena.alloc(bins.iter().map(<$t>::from_val).collect());
                     let labels: &'a Vec<$t> = arena.alloc(labels.iter().map(<$t>::from_val).collect());
                     match s.into_fw().vcut(bins, labels, *right, *add_bounds) {
-                        Ok(it) => <TResult<$t>>::wrap(S::Fw(it)),
+                        Ok(it) => <TResult<$t>>::wrap(S::fw(it)),
                         Err(e) => return Err(format!("DOCUMENTED-ERR: {e}")),
                     }
                 },
@@ -614,8 +614,8 @@ pub fn apply_stage<'a>(
             },
             Stage::Take { k } => S::fw(s.into_fw().take(*k)),
             Stage::StepBy { k } => S::fw(s.into_fw().step_by((*k).max(1))),
-            Stage::Shift { n, v } => S::Fw(s.into_fw().shift(*n, Tracked::from_val(v))),
-            Stage::VShift { n, fill } => S::Fw(s.into_fw().vshift(*n, fill.as_ref().map(Tracked::from_val))),
+            Stage::Shift { n, v } => S::fw(s.into_fw().shift(*n, Tracked::from_val(v))),
+            Stage::VShift { n, fill } => S::fw(s.into_fw().vshift(*n, fill.as_ref().map(Tracked::from_val))),
             Stage::FFill { fill } => S::fw(s.into_fw().ffill(fill.as_ref().map(Tracked::from_val))),
             Stage::BFill { fill } => match s {
                 S::De(d) => S::fw(d.bfill(fill.as_ref().map(Tracked::from_val))),
@@ -1064,29 +1064,17 @@ where
     }
 }
 
-fn opt_collect<'a>(s: S<'a, Option<f64>>, c: Container) -> Result<SinkRes, String> {
+fn opt_collect<'a, T>(s: S<'a, Option<T>>, c: Container) -> Result<SinkRes, String>
+where
+    T: Elem + IsNone + 'a,
+{
     let it = s.into_fw();
     let o = match c {
-        Container::Vec => {
-            let r: Vec<f64> = it.collect_vec1_opt();
-            obs_vec(r.iter())
-        },
-        Container::Deque => {
-            let r: VecDeque<f64> = it.collect_vec1_opt();
-            obs_vec(r.iter())
-        },
-        Container::Array1 => {
-            let r: Array1<f64> = it.collect_vec1_opt();
-            obs_vec(r.iter())
-        },
-        Container::Sim => {
-            let r: SimVec<f64> = it.collect_vec1_opt();
-            obs_vec(r.items.iter())
-        },
-        Container::Plain => {
-            let r: PlainVec<f64> = it.collect_vec1_opt();
-            obs_vec(r.items.iter())
-        },
+        Container::Vec => obs_vec(it.collect_vec1_opt::<Vec<T>>().iter()),
+        Container::Deque => obs_vec(it.collect_vec1_opt::<VecDeque<T>>().iter()),
+        Container::Array1 => obs_vec(it.collect_vec1_opt::<Array1<T>>().iter()),
+        Container::Sim => obs_vec(it.collect_vec1_opt::<SimVec<T>>().items.iter()),
+        Container::Plain => obs_vec(it.collect_vec1_opt::<PlainVec<T>>().items.iter()),
         Container::Polars => return bad("polars container handled separately"),
     };
     Ok(SinkRes { out: SinkOut::Seq(o), dead: vec![] })
@@ -1201,14 +1189,17 @@ where
     }
 }
 
-fn plain_opt<'a>(s: S<'a, Option<f64>>, c: Container) -> Result<SinkRes, String> {
+fn plain_opt<'a, T>(s: S<'a, Option<T>>, c: Container) -> Result<SinkRes, String>
+where
+    T: Elem + IsNone + 'a,
+{
     let it = s.into_plain();
     let o = match c {
-        Container::Vec => obs_vec(it.collect_vec1_opt::<Vec<f64>>().iter()),
-        Container::Deque => obs_vec(it.collect_vec1_opt::<VecDeque<f64>>().iter()),
-        Container::Array1 => obs_vec(it.collect_vec1_opt::<Array1<f64>>().iter()),
-        Container::Sim => obs_vec(it.collect_vec1_opt::<SimVec<f64>>().items.iter()),
-        Container::Plain => obs_vec(it.collect_vec1_opt::<PlainVec<f64>>().items.iter()),
+        Container::Vec => obs_vec(it.collect_vec1_opt::<Vec<T>>().iter()),
+        Container::Deque => obs_vec(it.collect_vec1_opt::<VecDeque<T>>().iter()),
+        Container::Array1 => obs_vec(it.collect_vec1_opt::<Array1<T>>().iter()),
+        Container::Sim => obs_vec(it.collect_vec1_opt::<SimVec<T>>().items.iter()),
+        Container::Plain => obs_vec(it.collect_vec1_opt::<PlainVec<T>>().items.iter()),
         Container::Polars => return bad("polars container handled separately"),
     };
     Ok(SinkRes { out: SinkOut::Seq(o), dead: vec![] })
@@ -1218,7 +1209,8 @@ fn run_plain_sink<'a>(s: Stream<'a>, sink: &Sink, remaining: usize) -> Result<Si
     if let Sink::OptCollect(c) = sink {
         return match s {
             Stream::OF64(s) => plain_opt(s, *c),
-            _ => bad("collect_vec1_opt is exercised on Option<f64> streams"),
+            Stream::OI32(s) => plain_opt(s, *c),
+            _ => bad("collect_vec1_opt is exercised on Option<f64> / Option<i32> streams"),
         };
     }
     match s {
@@ -1245,7 +1237,8 @@ fn run_sink<'a>(s: Stream<'a>, sink: &Sink, remaining: usize) -> Result<SinkRes,
     if let Sink::OptCollect(c) = sink {
         return match s {
             Stream::OF64(s) => opt_collect(s, *c),
-            _ => bad("collect_vec1_opt is exercised on Option<f64> streams"),
+            Stream::OI32(s) => opt_collect(s, *c),
+            _ => bad("collect_vec1_opt is exercised on Option<f64> / Option<i32> streams"),
         };
     }
     match s {
